@@ -803,7 +803,7 @@ class Extractor:
                         self.note_assumption(ctx, f"user subclass of `{c}` overriding `{m}`", e)
                     for a, _, fn in impls:
                         tok = ctx['self_tok'] if self.is_self(f.value) else \
-                            self.token_for(c, self.loc(ctx, e), ctx['self_tok'], ctx['held'])
+                            self.token_for(a, self.loc(ctx, e), ctx['self_tok'], ctx['held'])
                         outs.append(self.analyze_callable(a, fn, self.classes[a].module, tok, ctx, e,
                                                           argtypes, kwtypes))
                 return self.union(outs) if all(o is not None for o in outs) else None
